@@ -73,9 +73,19 @@ def _mass_of(s):
     from chempy import Substance
 
     try:
-        return float(Substance.from_formula(s).mass)
+        m = float(Substance.from_formula(s).mass)
     except Exception as e:
         return "EXC %s" % type(e).__name__
+    # the same formula as a Species (the subclass strips the phase label itself before parsing): the same mass
+    try:
+        from chempy import Species
+
+        ms = float(Species.from_formula(s).mass)
+        if ms != m:
+            return "EXC Species.from_formula(...).mass = %r differs from Substance's %r" % (ms, m)
+    except Exception as e:
+        return "EXC Species.from_formula: %s" % type(e).__name__
+    return m
 
 
 def _check_mass(res, s, comp, case):
@@ -142,6 +152,22 @@ def run_chunk(chunk, tier):
                     viakw = "EXC %s" % type(e).__name__
                 if isinstance(got, float) and not (isinstance(viakw, float) and abs(viakw - got) <= 1e-12 * max(1.0, abs(got))):
                     res.violation("C14|Substance.mass|charge-keyword", "Substance.from_formula(%r, charge=%d).mass = %r, the ion %r weighs %r" % (sym, q, viakw, s, got), dict(layer="E", z=z, what="chargekw", s=s, q=q), viakw, got)
+                # a parent whose mass was already read, deep-copied and then given the charge: the copy weighs what the ion weighs
+                res.evaluations += 1
+                try:
+                    import copy as _copy
+
+                    parent = chempy.Substance.from_formula(sym)
+                    parent.mass
+                    child = _copy.deepcopy(parent)
+                    child.composition[0] = q
+                    viacopy = float(child.mass)
+                    parent_after = float(parent.mass)
+                except Exception as e:
+                    viacopy, parent_after = "EXC %s" % type(e).__name__, None
+                if isinstance(got, float) and not (isinstance(viacopy, float) and abs(viacopy - got) <= 1e-12 * max(1.0, abs(got)) and parent_after == neutral):
+                    res.violation("C14|Substance.mass|read-copy-charge", "Substance.from_formula(%r): mass read, deep-copied, copy.composition[0] = %d: copy.mass = %r (the ion weighs %r), parent.mass = %r (was %r)" % (
+                        sym, q, viacopy, got, parent_after, neutral), dict(layer="E", z=z, what="readcopy", s=s, q=q), viacopy, got)
                 # ... and leaves the neutral parent what it was
                 res.evaluations += 1
                 again = _mass_of(sym)
@@ -246,7 +272,7 @@ def _check_mix(res, keys, coeffs, masses):
     tot = sum(masses[k] * c for k, c in stoich.items())
     exp = {k: masses[k] * c / tot for k, c in stoich.items()}
     # the substances may also be handed in: in the mixture's order, in reverse order, or as a larger registry
-    for how in ("default", "given", "given-reversed", "registry"):
+    for how in ("default", "given", "given-reversed", "registry", "OrderedDict", "Counter", "defaultdict"):
         if how != "default":
             res.states += 1
             res.transitions += 1
@@ -254,6 +280,15 @@ def _check_mix(res, keys, coeffs, masses):
         try:
             if how == "default":
                 got = chempy.mass_fractions(stoich)
+            elif how in ("OrderedDict", "Counter", "defaultdict"):
+                import collections
+
+                if how == "defaultdict":
+                    arg = collections.defaultdict(int)
+                    arg.update(stoich)
+                else:
+                    arg = getattr(collections, how)(stoich)
+                got = dict(chempy.mass_fractions(arg))
             else:
                 ks = {"given": list(keys), "given-reversed": list(keys)[::-1], "registry": MIX[::-1]}[how]
                 got = chempy.mass_fractions(stoich, substances=OrderedDict((k, chempy.Substance.from_formula(k)) for k in ks))
